@@ -76,14 +76,25 @@ def stream_scenarios():
 
 def run_stream_scenario(sc, carry_on="direct", integ="generic"):
     quad = sc["stream"] == "QuadStream"
-    cfg = impl.default_cfg(integ=integ, sclass=("quad" if quad else "triple"), ltype=(2 if quad else 1), delimited=True, frame_size=10**6, preset=(16, 8, 0))
+    cfg = impl.default_cfg(integ=integ, sclass=("quad" if quad else "triple"), ltype=(2 if quad else 1), delimited=True, frame_size=10**6, preset=(16, 8, 0),
+                           nsdecl=(carry_on == "declare-namespace"))
     stream = impl.make_stream(cfg)
     stream.enroll()
     frames, accepted, raised = [], [], []
+    declared: list = []
     from pyjelly.integrations.generic import serialize as gser  # noqa: PLC0415
 
     for i, st in enumerate(sc["statements"]):
         tt = [writer.to_impl_term(t, integ) for t in st]
+        if carry_on == "declare-namespace" and raised and not declared:
+            # the caller carries on with a namespace declaration whose IRI shares the prefix / the whole IRI of terms the rejected statement had already encoded
+            declared.append(True)
+            for label, iri in (("c", "c/"), ("a", "a/"), ("whole", "c/s")):
+                try:
+                    stream.namespace_declaration(label, iri)
+                    accepted.append(("ns", label, iri))
+                except Exception as ex:  # noqa: BLE001
+                    raised.append((i, type(ex).__name__))
         try:
             if carry_on == "enroll-again" and raised:
                 stream.enroll()                       # idempotent by contract; the integrations call it at the start of every stream_frames()
@@ -208,6 +219,7 @@ def main(tier: str) -> int:
     plain = [sc for sc in stream_scenarios() if sc["nested"] == "no"]         # rdflib has no quoted triples: the same scenarios through its term encoder
     for sc, carry_on, integ in ([(sc, "direct", "generic") for sc in stream_scenarios()]
                                 + [(sc, how, "generic") for sc in stream_scenarios()[::7] for how in ("enroll-again", "stream_frames")]
+                                + [(sc, "declare-namespace", integ_) for sc in plain[::2] for integ_ in ("generic", "rdflib")]
                                 + [(sc, "direct", "rdflib") for sc in plain]):
         data, accepted, raised = run_stream_scenario(sc, carry_on, integ)
         key = {"stream": sc["stream"], "cause": sc["cause"], "slot": sc["slot"], "nested": sc["nested"] != "no", "carry_on": carry_on, "integ": integ}
